@@ -3,9 +3,9 @@ package main
 // C06 second-line rules: LOOP-CENSUS, REC-CENSUS, C06-PANIC, C06-BOUNDS.
 
 import (
-	"go/constant"
 	"fmt"
 	"go/ast"
+	"go/constant"
 	"go/token"
 	"go/types"
 	"sort"
